@@ -101,6 +101,115 @@ def guarded(rep, sig, what, fn, expect=None, info=None):
     return True
 
 
+class ReprKey(str):
+    """a str subclass whose repr is not the repr of its text: a key is data, what it prints as must not matter"""
+    def __new__(cls, text, shown):
+        o = super().__new__(cls, text)
+        o.shown = shown
+        return o
+
+    def __repr__(self):
+        return self.shown
+
+
+def more_names_keys_constants(rep, stats):
+    """(a) pairs of linked functions one of which is named like the variable the generator would capture the other under;
+    (b) constants given to link_constant: every hostile string, as str and as bytes, must arrive unchanged;
+    (c) keys that are instances of str subclasses (a str-mixin enum member, a str whose repr is code);
+    (d) fields named like keywords in the kinds that allow it (pydantic create_model, TypedDict)."""
+    import enum
+    from typing import TypedDict
+
+    from adaptix import P, Retort, name_mapping
+    from adaptix.conversion import get_converter, link_constant, link_function
+
+    @dataclass
+    class A:
+        a: int
+
+    @dataclass
+    class B3:
+        a: int
+        c: int
+        d: int
+
+    for x, y in (("f", "g_f"), ("g_f", "f"), ("g_f", "g_g_f"), ("f", "g_g_f"), ("constant_0", "g_constant_0"), ("a", "g_a"), ("A", "g_A"),
+                 ("B3", "g_B3"), ("g_B3", "B3")):
+        def fx(src):
+            return 1
+        fx.__name__ = x
+
+        def fy(src):
+            return 2
+        fy.__name__ = y
+        stats["function_names"] += 1
+        guarded(rep, f"function-name:capture-pair:{x}+{y}", f"two linked functions named {x!r} and {y!r} in one converter",
+                lambda: get_converter(A, B3, recipe=[link_function(fx, P[B3].c), link_function(fy, P[B3].d)])(A(0)),
+                lambda o: (o.a, o.c, o.d) == (0, 1, 2), {"names": [x, y]})
+
+    @dataclass
+    class Dc:
+        a: int
+        t: Any
+
+    for ki, key in enumerate(HOSTILE_KEYS + ["line1\nline2", "a\n    b", "q'q'q\n\"\"\"", "\\\n", "tab\there\n"]):
+        for val in (key, key.encode("utf-8", "surrogatepass"), (key, key), [key], {key: key}):
+            stats["generated_programs"] += 1
+            guarded(rep, f"constant:{type(val).__name__}:{ki}", f"link_constant(..., value={val!r})",
+                    lambda: get_converter(A, Dc, recipe=[link_constant(P[Dc].t, value=val)])(A(1)),
+                    lambda o: o.a == 1 and o.t == val and type(o.t) is type(val), {"constant": repr(val)})
+
+    class SK(str, enum.Enum):
+        KA = "key-a"
+        KQ = "it's"
+
+    @dataclass
+    class K1:
+        x: int
+        y: int = 3
+    exotic_keys = [SK.KA, SK.KQ, ReprKey("plain", "CANARY(11)"), ReprKey("p2", "'] = 0; CANARY(12); x['"), ReprKey("p3", "'other'"),
+                   ReprKey("p4", "")]
+    for ki, key in enumerate(exotic_keys):
+        text = str.__str__(key)
+        for variant, recipe in (("flat", [name_mapping(K1, map={"x": key})]), ("nested", [name_mapping(K1, map={"x": ("n", key)})]),
+                                ("omit", [name_mapping(K1, map={"y": key}, omit_default=True)])):
+            stats["generated_programs"] += 2
+            rt = Retort(recipe=recipe)
+            info = {"key_text": text, "key_repr": str.__repr__(key) + " printed as " + repr(key)[:60], "key_class": type(key).__name__}
+            inp = {"flat": {text: 1}, "nested": {"n": {text: 1}}, "omit": {"x": 1, text: 4}}[variant]
+            want = {"flat": (1, 3), "nested": (1, 3), "omit": (1, 4)}[variant]
+            guarded(rep, f"key-subclass:{variant}:load:{ki}", f"loading from a mapped key that is a {type(key).__name__} instance with text {text!r}",
+                    lambda: rt.load(inp, K1), lambda o: (o.x, o.y) == want, info)
+            out = {"flat": {text: 1, "y": 3}, "nested": {"n": {text: 1}, "y": 3}, "omit": {"x": 1, text: 4}}[variant]
+            guarded(rep, f"key-subclass:{variant}:dump:{ki}", f"dumping to a mapped key that is a {type(key).__name__} instance with text {text!r}",
+                    lambda: rt.dump(K1(*want), K1), lambda d: d == out, info)
+
+    import keyword
+
+    import pydantic
+    for kw in ("class", "def", "for", "None", "import", "lambda", "match", "print"):
+        stats["field_names"] = stats.get("field_names", 0) + 1
+        if kw not in ("None",):
+            PM = pydantic.create_model("PM", **{kw: (int, ...), "x": (int, 0)})
+            guarded(rep, f"field-name:pydantic:load:{kw}", f"loading a pydantic model with a field named {kw!r}",
+                    lambda: Retort().load({kw: 1}, PM), lambda o: getattr(o, kw) == 1 and o.x == 0, {"field": kw})
+            guarded(rep, f"field-name:pydantic:dump:{kw}", f"dumping a pydantic model with a field named {kw!r}",
+                    lambda: Retort().dump(PM(**{kw: 1}), PM), lambda d: d == {kw: 1, "x": 0}, {"field": kw})
+        TD = TypedDict("TD", {kw: int, "x": int})
+        guarded(rep, f"field-name:typeddict:load:{kw}", f"loading a TypedDict with a key named {kw!r}",
+                lambda: Retort().load({kw: 1, "x": 2}, TD), lambda o: o == {kw: 1, "x": 2}, {"field": kw})
+        guarded(rep, f"field-name:typeddict:dump:{kw}", f"dumping a TypedDict with a key named {kw!r}",
+                lambda: Retort().dump({kw: 1, "x": 2}, TD), lambda d: d == {kw: 1, "x": 2}, {"field": kw})
+        if keyword.iskeyword(kw):
+            @dataclass
+            class Dk:
+                x: int
+            Dk2 = TypedDict("Dk2", {kw: int, "x": int})
+            guarded(rep, f"field-name:typeddict:convert:{kw}", f"converting into a TypedDict with a key named {kw!r}",
+                    lambda: get_converter(Dk, Dk2, recipe=[link_constant(P[Dk2][kw], value=7)])(Dk(2)),
+                    lambda d: d == {kw: 7, "x": 2}, {"field": kw})
+
+
 def run(rep, tier, seed):
     from adaptix import DebugTrail, Retort, name_mapping
     from adaptix._internal.code_tools.name_sanitizer import BuiltinNameSanitizer
@@ -336,6 +445,7 @@ def run(rep, tier, seed):
                             link_function(named, _P[DstN].f), link_constant(_P[DstN].c, value=decimal.Decimal(1)),
                             link_function(anon, _P[DstN].g), link_constant(_P[DstN].h, value=decimal.Decimal(2))])(SrcN(1, 2)),
                         lambda o: (o.f, o.c, o.g, o.h) == (101, decimal.Decimal(1), 9, decimal.Decimal(2)), {"name": nm, "field_order": order})
+    more_names_keys_constants(rep, stats)
     # ---------------------------------------------------------------- stub defaults and parameter names
     defaults = [Color.RED, object(), Evil("CANARY(2)"), Evil("1)): pass\nCANARY(10)\nif ((1"), "x'\"\n", b"\x00'", 1.5, float("inf"), None, (1,),
                 [1], {"a": 1}, Evil(""), Evil("lambda: 0"), 10 ** 30, -1, Ellipsis, int, len]
